@@ -29,7 +29,7 @@ VARIABLE cur
 A == Len(Alpha)
 ABytes == {Alpha[i] : i \in 1..A}
 
-pvars == <<wire, buf, sent, decoded, out, st, cur>>      \* the connection variables of Resp stay idle here
+pvars == <<wire, buf, sent, decoded, out, st, big, cur>>      \* the connection variables of Resp stay idle here
 Init == RInit /\ cur = <<>>
 Next == Len(cur) < N /\ (\E a \in ABytes : cur' = Append(cur, a)) /\ UNCHANGED rvars
 Spec == Init /\ [][Next]_pvars
